@@ -136,7 +136,7 @@ PROPS = {
              "model; non-trivial = >=2 answers; distinct = distinct case lines",
         trusted=SEARCH_TRUST,
         assumptions=[],
-        open=["reordering inside programs with relation calls / committed choice (outside the conj/conde/fresh programs of C04_program_comm) is checked by the oracle only"],
+        open=["reordering inside programs with COMMITTED CHOICE is checked by the oracle only (programs with relation calls: C04_rel_equiv / C04_rel_conj_comm / C04_rel_alt_comm)"],
     ),
     "C09": dict(
         title="query iteration: lazy, fused, deterministic",
@@ -149,7 +149,7 @@ PROPS = {
              "distinct case lines",
         trusted=SEARCH_TRUST + ["that std's HashMap/HashSet iterate in SOME order per process is trusted; the model quantifies over all orders"],
         assumptions=[],
-        open=["sequence-level order independence is proved for ==/!= programs of conj/conde/fresh (C09_sequence_order_free, C09_answers_order_free); for programs with relation calls, committed choice or FD constraints under different iteration orders it is carried by the forced-order and multi-process runs (with FD constraints it is in fact false: known findings D20/D21)"],
+        open=["sequence-level order independence is proved for ==/!= programs of conj/conde/fresh (C09_sequence_order_free, C09_answers_order_free); with interleaving library relation calls too (C09_sequence_order_free_rel); for programs with committed choice, dfs-calls or FD constraints under different iteration orders it is carried by the forced-order and multi-process runs (with FD constraints it is in fact false: known findings D20/D21)"],
         multi_process=dict(quick=2, thorough=8),
     ),
     "C21": dict(
@@ -187,7 +187,7 @@ PROPS = {
              "(known finding D20 otherwise); non-trivial = >=2 answers; distinct = distinct case lines",
         trusted=SEARCH_TRUST,
         assumptions=[],
-        open=["declarative SOUNDNESS of all six recursive relations in every argument mode is proved (Props/C24Sem.lean); their COMPLETENESS (every tuple in the relation is described by a delivered state) and answer multiplicities are carried by the correspondence and the Vec-based oracle"],
+        open=["soundness, completeness (all six recursive relations and cons/first/rest/empty, every mode) and the multiplicities of member / member1 are proved (C24Sem, C24Count, C24First); the multiplicities of append / rember / permute / distinct are carried by the correspondence and the Vec-based oracle; every theorem carries the FUEL caveat of the model"],
     ),
     "C20": dict(
         title="compound terms (unification, disequality, reification, FD labelling)",
@@ -209,7 +209,7 @@ PROPS = {
         rule='programs with `for e in &coll { body }` over collections of 0-3 literals / lists / outer query variables, bodies of 1-2 goals using the loop variable and outer variables, optionally after another goal; emitted as Rust SOURCE inside proto_vulcan!, compiled against the current tree; oracle: the explicit conjunction (reverse collection order) built through the runtime API, answer sequences equal; the reference program goes through the model; non-trivial = >=2 answers or a non-ground answer; distinct = distinct case lines',
         trusted=SEARCH_TRUST + ["syn parsing of the surface syntax is not modelled: the theorems start at the AST; the harness PRINTS ASTs to Rust source, so a parser slip surfaces as a compile error or a disagreement", "project and fngoal clauses are not generated; compound constructors / patterns are generated where the macro grammar accepts them (operands of == / !=, whole match patterns; arguments: variables, `_`, literals, proper lists)"],
         assumptions=["the reference elaboration (surf.rs) is the documented meaning: names resolved lexically, one new variable per binder / distinct pattern name / `_`"],
-        open=['bodies with relation calls / committed choice (outside the conj/conde/fresh bodies of C12_order_irrelevant): equality with the forward conjunction is checked on the real engine via the reference program'],
+        open=['bodies with COMMITTED CHOICE: equality with the forward conjunction is checked on the real engine via the reference program (bodies with relation calls: C12_rel_everyg)'],
         macro=True,
     ),
     "C13": dict(
